@@ -61,7 +61,7 @@ CLAIMED["C04"] = dict(
    ref="DESIGN.md section 4, C04")
 
 NA = {
- "C03": "the sync-queue path of WriteQueues does not finish under CBMC even fully concrete (update+sync+3 pops: time-out at 400 s; same shape without sync: 8 s); the runtime half needs Uplinks (byte channel + promise + BytesMut buffers); no smaller kernel carries the property (DESIGN.md section 4/5)",
+ "C03": "the sync-queue path of WriteQueues does not finish under CBMC even fully concrete (update+sync+3 pops: time-out at 400 s; same shape without sync: 8 s); of the runtime half only the ordering of a synced marker after queued data is checked, inside the narrow C04 scheduler kernel; no kernel carries the snapshot property (DESIGN.md section 4/5)",
  "C05": "the property is the order of persist_response before handle_event inside an async select loop, every crash point and restart through tokio tasks; Kani cannot execute the runtime and the only kernel (persist_response) says nothing about order or crashes",
  "C06": "quantifies over handler programs (trees of boxed HandlerActions) run by the agent's async loop; no data-symbolic kernel carries it, program structure can only be enumerated",
  "C08": "on_read/on_event are private async fns over lifecycle futures and tracing, hosted downlinks sit behind the agent HandlerAction machinery; far simpler heap code (C02, C12) is already at CBMC's limit, so no honest bound was in reach",
